@@ -19,8 +19,11 @@ package server
 
 import (
 	"context"
+	"encoding/binary"
 	"fmt"
+	"io"
 	"os"
+	"path/filepath"
 	"sort"
 	"strings"
 	"sync"
@@ -28,16 +31,52 @@ import (
 	"testing"
 	"time"
 
+	"github.com/hashicorp/raft"
 	client "github.com/liftbridge-io/liftbridge-api/v2/go"
+	"github.com/nats-io/nats.go"
 	"google.golang.org/grpc"
 	"google.golang.org/grpc/codes"
 	"google.golang.org/grpc/status"
+
+	proto "github.com/liftbridge-io/liftbridge/server/protocol"
 )
 
 const (
 	vC16Inf      = int64(1000000000)
 	vC16Deadline = 10 * time.Second
+	// how long a PublishAsync session is kept between its NATS publish and its
+	// in-flight count when the answer does not come (a bound, not a verdict)
+	vC16HoldMax = 2 * time.Second
 )
+
+// Sessions parked at the gate api.publish_async.published (hook in
+// publishLoop between ncPublishes.Publish and inflight++): a send with "hold"
+// registers its correlation id; the session then counts the publish only after
+// the publisher has the answer (schedule Publish, Arrive, Process, Ack, Count of
+// OccPublish.tla), or after vC16HoldMax.
+var (
+	vC16HoldMu sync.Mutex
+	vC16Holds  = map[string]*vC16Pending{}
+)
+
+func vC16GateHook(name, id string, stop <-chan struct{}) {
+	if name != "api.publish_async.published" {
+		return
+	}
+	vC16HoldMu.Lock()
+	pd := vC16Holds[id]
+	delete(vC16Holds, id)
+	vC16HoldMu.Unlock()
+	if pd == nil {
+		return
+	}
+	select {
+	case <-pd.done:
+		atomic.StoreInt32(&pd.held, 1) // counted after the answer
+	case <-time.After(vC16HoldMax):
+		atomic.StoreInt32(&pd.held, 2) // no answer while parked
+	}
+}
 
 type vC16Msg struct {
 	P     string `json:"p"`
@@ -47,9 +86,12 @@ type vC16Msg struct {
 	AckT  int64  `json:"ackT"`
 	Res   string `json:"res"`
 	Off   int64  `json:"off"`
+	Via   string `json:"via"`  // who publishes: api | subj | nats | natsq | plain
+	Hold  string `json:"hold"` // "" | "counted after the answer" | "no answer while parked" (information only)
 	Kind  string `json:"kind"` // the intent (information only)
 	Seq   int    `json:"seq"`  // per publisher sequence number (information only)
 	Err   string `json:"err"`  // error text (information only)
+	pd    *vC16Pending
 }
 
 type vC16Entry struct {
@@ -62,6 +104,7 @@ type vC16Cfg struct {
 	Batch   int    `json:"batch"`
 	BatchMs int    `json:"batchMs"`
 	Path    string `json:"path"`
+	Snap0   string `json:"snap0"` // where a snapshot was taken while the stream was set up (information only)
 }
 
 type vC16Event struct {
@@ -78,12 +121,18 @@ type vC16Event struct {
 	Pauses   int              `json:"pauses"` // PauseStream calls of the round (information only)
 	Restarts int              `json:"restarts"` // server restarts of the round (information only)
 	Recreate bool             `json:"recreate"` // the stream had a deleted predecessor with the opposite setting
+	Eocc     bool             `json:"eocc"`     // concurrency control of the running commit log when the round ended
+	Snap     string           `json:"snap"`     // what the newest snapshot in the Raft snapshot store holds: none | pred | cur
+	Snaps    int              `json:"snaps"`    // snapshots taken in the round (information only)
+	Installs int              `json:"installs"` // snapshot installs on the running server (information only)
+	Holds    int              `json:"holds"`    // sends whose session counted them after the answer (information only)
 	Note     string           `json:"note,omitempty"`
 }
 
 type vC16Pending struct {
 	msg  *vC16Msg
 	done chan struct{}
+	held int32
 }
 
 type vC16Pub struct {
@@ -98,6 +147,9 @@ type vC16Pub struct {
 	cancel  context.CancelFunc
 	pending map[string]*vC16Pending
 	waiting []*vC16Pending
+	// the publisher's own NATS connection (raw publishes) and its ack inbox
+	nc    *nats.Conn
+	inbox string
 }
 
 type vC16Round struct {
@@ -114,6 +166,8 @@ type vC16Round struct {
 	note   string
 	env      *vC16Env
 	restarts int
+	snaps    int
+	installs int
 }
 
 // cur returns the partition object now in the metadata (resuming a paused
@@ -249,43 +303,168 @@ func (p *vC16Pub) openAsync() error {
 				return
 			}
 			res, off, text := vC16ClassifyAsync(resp)
-			p.mu.Lock()
 			key := resp.CorrelationId
-			pd := p.pending[key]
-			if pd == nil && resp.Ack != nil {
+			if key == "" && resp.Ack != nil {
 				key = resp.Ack.CorrelationId
-				pd = p.pending[key]
 			}
-			if pd != nil && pd.msg.Res == "noanswer" {
-				// an answer after the fence was acknowledged: recorded, the verdict stands
-				pd.msg.Err = "late answer after the fence: " + res
-				delete(p.pending, key)
-				pd = nil
-			}
-			if pd != nil {
-				delete(p.pending, key)
-				pd.msg.AckT, pd.msg.Res, pd.msg.Off, pd.msg.Err = at, res, off, text
-				if res == "ok" && off+1 > p.known {
-					p.known = off + 1
-				}
-			}
-			p.mu.Unlock()
-			if pd != nil {
-				close(pd.done)
-			}
+			p.resolve(key, at, res, off, text)
 		}
 	}()
 	return nil
 }
 
-func (p *vC16Pub) send(kind, pol string) {
+// resolve files the answer to the publish with that correlation id.
+func (p *vC16Pub) resolve(key string, at int64, res string, off int64, text string) {
+	p.mu.Lock()
+	pd := p.pending[key]
+	if pd != nil && pd.msg.Res == "noanswer" {
+		// an answer after the fence was acknowledged: recorded, the verdict stands
+		pd.msg.Err = "late answer after the fence: " + res
+		delete(p.pending, key)
+		pd = nil
+	}
+	if pd != nil {
+		delete(p.pending, key)
+		pd.msg.AckT, pd.msg.Res, pd.msg.Off, pd.msg.Err = at, res, off, text
+		if res == "ok" && off+1 > p.known {
+			p.known = off + 1
+		}
+	}
+	p.mu.Unlock()
+	if pd != nil {
+		close(pd.done)
+	}
+}
+
+// openRaw: the publisher's own NATS connection and ack inbox (a publisher that
+// writes Liftbridge envelopes / plain messages to the stream's subject itself).
+func (p *vC16Pub) openRaw() error {
+	if p.nc != nil {
+		return nil
+	}
+	nc, err := nats.Connect(p.run.env.cfg.NATS.Servers[0])
+	if err != nil {
+		return err
+	}
+	inbox := nats.NewInbox()
+	_, err = nc.Subscribe(inbox, func(m *nats.Msg) {
+		at := p.run.tick() // stamped right after the answer was received
+		ack, err := proto.UnmarshalAck(m.Data)
+		if err != nil {
+			return
+		}
+		res, off, text := "ok", ack.Offset, ""
+		switch ack.AckError {
+		case client.Ack_OK:
+		case client.Ack_INCORRECT_OFFSET:
+			res, off = "incorrect_offset", -1
+		default:
+			res, off, text = "other", -1, "ack error "+ack.AckError.String()
+		}
+		p.resolve(ack.CorrelationId, at, res, off, text)
+	})
+	if err == nil {
+		err = nc.Flush()
+	}
+	if err != nil {
+		nc.Close()
+		return err
+	}
+	p.nc, p.inbox = nc, inbox
+	return nil
+}
+
+func (p *vC16Pub) closeRaw() {
+	if p.nc != nil {
+		p.nc.Close()
+		p.nc = nil
+	}
+}
+
+func (p *vC16Pub) send(kind, pol, via string, hold bool) {
 	r := p.run
 	p.mu.Lock()
 	p.seq++
-	m := &vC16Msg{P: p.name, Pol: pol, Kind: kind, Seq: p.seq, AckT: vC16Inf, Res: "pending", Off: -1}
+	m := &vC16Msg{P: p.name, Pol: pol, Via: via, Kind: kind, Seq: p.seq, AckT: vC16Inf, Res: "pending", Off: -1}
 	m.Exp = vC16Exp(kind, p.known)
+	if via == "plain" || via == "subj" {
+		m.Exp = -1 // no expected-offset field at all
+	}
 	p.msgs = append(p.msgs, m)
 	corr := fmt.Sprintf("%d|%s|%d", r.id, p.name, p.seq)
+	switch via {
+	case "nats", "natsq", "plain":
+		// the publisher writes to the stream's NATS subject itself
+		var data []byte
+		if via == "plain" {
+			data = []byte(corr)
+		} else {
+			env := &client.Message{Value: []byte(corr), Stream: r.stream, Subject: r.stream, CorrelationId: corr,
+				AckPolicy: vC16Policy(pol), Offset: m.Exp}
+			if via == "nats" {
+				env.AckInbox = p.inbox
+			}
+			var err error
+			if data, err = proto.MarshalPublish(env); err != nil {
+				panic(err)
+			}
+		}
+		var pd *vC16Pending
+		if via == "nats" {
+			pd = &vC16Pending{msg: m, done: make(chan struct{})}
+			m.pd = pd
+			p.pending[corr] = pd
+			p.waiting = append(p.waiting, pd)
+		}
+		m.SendT = r.tick() // stamped just before the send
+		p.mu.Unlock()
+		if err := p.nc.Publish(r.stream, data); err != nil {
+			p.mu.Lock()
+			m.AckT, m.Res, m.Err = r.tick(), "other", "nats publish: "+err.Error()
+			if pd != nil {
+				if _, still := p.pending[corr]; still {
+					delete(p.pending, corr)
+					close(pd.done)
+				}
+			}
+			p.mu.Unlock()
+		}
+		return
+	case "subj":
+		// PublishToSubject: unary RPC, returns with the first ack
+		m.SendT = r.tick()
+		p.mu.Unlock()
+		ctx, cancel := context.WithTimeout(context.Background(), vC16Deadline)
+		resp, err := r.api.PublishToSubject(ctx, &client.PublishToSubjectRequest{Subject: r.stream, Value: []byte(corr),
+			CorrelationId: corr, AckPolicy: vC16Policy(pol)})
+		at := r.tick()
+		cancel()
+		res, off, text := "ok", int64(-1), ""
+		switch {
+		case err != nil && status.Code(err) == codes.DeadlineExceeded:
+			res, text = "timeout", err.Error()
+		case err != nil:
+			res, text = "other", err.Error()
+		case resp.Ack == nil:
+			res = "noack"
+		case resp.Ack.AckError == client.Ack_INCORRECT_OFFSET:
+			res = "incorrect_offset"
+		case resp.Ack.AckError != client.Ack_OK:
+			res, text = "other", "ack error "+resp.Ack.AckError.String()
+		default:
+			off = resp.Ack.Offset
+		}
+		p.mu.Lock()
+		m.Res, m.Off, m.Err = res, off, text
+		if res != "timeout" {
+			m.AckT = at
+		}
+		if res == "ok" && off+1 > p.known {
+			p.known = off + 1
+		}
+		p.mu.Unlock()
+		return
+	}
 	req := &client.PublishRequest{
 		Stream:         r.stream,
 		Value:          []byte(corr),
@@ -295,8 +474,14 @@ func (p *vC16Pub) send(kind, pol string) {
 	}
 	if r.cfg.Path == "async" {
 		pd := &vC16Pending{msg: m, done: make(chan struct{})}
+		m.pd = pd
 		p.pending[corr] = pd
 		p.waiting = append(p.waiting, pd)
+		if hold && pol != "none" {
+			vC16HoldMu.Lock()
+			vC16Holds[corr] = pd
+			vC16HoldMu.Unlock()
+		}
 		m.SendT = r.tick() // stamped just before the send
 		p.mu.Unlock()
 		if err := p.stream.Send(req); err != nil {
@@ -369,11 +554,27 @@ func (p *vC16Pub) await() (timeouts int) {
 // every earlier publish has been judged by the leader and a refusal for it
 // would have arrived: what is still unanswered is recorded as "noanswer" (an
 // observation TLC judges); without the fence's ack it stays "timeout" (unknown).
+//
+// The same over the publisher's own NATS connection (messages of one connection
+// to one subject are delivered in order): an enveloped publish with ack inbox,
+// check waived.  Publishes without ack inbox never get an answer; once the raw
+// fence is acknowledged they have been judged ("noack", stamped with the fence's
+// answer time) and the log tells what became of them.
 func (p *vC16Pub) fence() {
+	p.fenceLink(false)
+	p.fenceLink(true)
+}
+
+func vC16Raw(via string) bool { return via == "nats" || via == "natsq" || via == "plain" }
+
+func (p *vC16Pub) fenceLink(raw bool) {
 	p.mu.Lock()
 	var open []*vC16Msg
 	for _, m := range p.msgs {
-		if m.Pol != "none" && m.AckT >= vC16Inf {
+		if m.Via == "subj" || vC16Raw(m.Via) != raw {
+			continue
+		}
+		if m.AckT >= vC16Inf && (m.Pol != "none" || raw) {
 			open = append(open, m)
 		}
 	}
@@ -381,7 +582,14 @@ func (p *vC16Pub) fence() {
 	if len(open) == 0 {
 		return
 	}
-	p.send("fence", "leader")
+	if raw {
+		if err := p.openRaw(); err != nil {
+			return
+		}
+		p.send("fence", "leader", "nats", false)
+	} else {
+		p.send("fence", "leader", "api", false)
+	}
 	p.await()
 	p.mu.Lock()
 	defer p.mu.Unlock()
@@ -391,7 +599,11 @@ func (p *vC16Pub) fence() {
 	}
 	for _, m := range open {
 		if m.AckT >= vC16Inf {
-			m.AckT, m.Res = f.AckT, "noanswer"
+			if m.Via == "natsq" || m.Via == "plain" {
+				m.AckT, m.Res = f.AckT, "noack"
+			} else {
+				m.AckT, m.Res = f.AckT, "noanswer"
+			}
 		}
 	}
 }
@@ -444,6 +656,10 @@ func (r *vC16Round) runWave(wave map[string]interface{}) (timeouts int) {
 				r.pause()
 			case "Restart":
 				r.restart()
+			case "Snapshot":
+				r.snapshot()
+			case "Install":
+				r.install()
 			default:
 				panic("unknown driver step " + a)
 			}
@@ -462,6 +678,13 @@ func (r *vC16Round) runWave(wave map[string]interface{}) (timeouts int) {
 			r.t.Fatalf("round %d: unknown publisher %q", r.id, name)
 		}
 		steps := wave[name].([]interface{})
+		for _, s := range steps {
+			if vC16Raw(vStrDef(s.(map[string]interface{}), "via", "api")) {
+				if err := p.openRaw(); err != nil {
+					r.t.Fatalf("INCONCLUSIVE: nats connection of publisher %s: %v", name, err)
+				}
+			}
+		}
 		wg.Add(1)
 		go func(p *vC16Pub, steps []interface{}) {
 			defer wg.Done()
@@ -470,7 +693,8 @@ func (r *vC16Round) runWave(wave map[string]interface{}) (timeouts int) {
 				st := s.(map[string]interface{})
 				switch vStr(st, "a") {
 				case "Send":
-					p.send(vStr(st, "kind"), vStrDef(st, "pol", "leader"))
+					hold, _ := st["hold"].(bool)
+					p.send(vStr(st, "kind"), vStrDef(st, "pol", "leader"), vStrDef(st, "via", "api"), hold)
 				case "Read":
 					e := r.readEnd()
 					p.mu.Lock()
@@ -556,6 +780,90 @@ func (r *vC16Round) createStream(occ bool) {
 	r.waitLeader()
 }
 
+// snapshotStore opens the Raft snapshot store of the server.
+func (r *vC16Round) snapshotStore() (raft.SnapshotStore, []*raft.SnapshotMeta) {
+	store, err := raft.NewFileSnapshotStore(filepath.Join(r.env.cfg.DataDir, "raft"), 2, io.Discard)
+	if err != nil {
+		r.t.Fatalf("INCONCLUSIVE: snapshot store: %v", err)
+	}
+	metas, err := store.List()
+	if err != nil {
+		r.t.Fatalf("INCONCLUSIVE: snapshot list: %v", err)
+	}
+	return store, metas
+}
+
+// snapHolds: what the newest persisted snapshot says about the stream of the
+// round - read from the snapshot store: "none" (no stream of that name), "cur"
+// (the stream as it exists now, by creation time), "pred" (an earlier one).
+func (r *vC16Round) snapHolds() string {
+	store, metas := r.snapshotStore()
+	if len(metas) == 0 {
+		return "none"
+	}
+	_, rc, err := store.Open(metas[0].ID)
+	if err != nil {
+		r.t.Fatalf("INCONCLUSIVE: snapshot open: %v", err)
+	}
+	defer rc.Close()
+	b, err := io.ReadAll(rc)
+	if err != nil || len(b) < 4 || int(binary.BigEndian.Uint32(b[:4])) != len(b)-4 {
+		r.t.Fatalf("INCONCLUSIVE: snapshot is not size + data (%d bytes, %v)", len(b), err)
+	}
+	snap := &proto.MetadataSnapshot{}
+	if err := snap.Unmarshal(b[4:]); err != nil {
+		r.t.Fatalf("INCONCLUSIVE: snapshot: %v", err)
+	}
+	for _, st := range snap.Streams {
+		if st.Name != r.stream {
+			continue
+		}
+		if live := r.srv.metadata.GetStream(r.stream); live != nil && live.GetCreationTime().UnixNano() == st.CreationTimestamp {
+			return "cur"
+		}
+		return "pred"
+	}
+	return "none"
+}
+
+// snapshot: the metadata Raft group persists a snapshot of its state machine now.
+func (r *vC16Round) snapshot() {
+	var err error
+	for attempt := 1; attempt <= 4; attempt++ {
+		err = r.srv.getRaft().Snapshot().Error()
+		if err == nil || err == raft.ErrNothingNewToSnapshot {
+			r.snaps++
+			return
+		}
+		time.Sleep(300 * time.Millisecond)
+	}
+	r.t.Fatalf("INCONCLUSIVE: raft snapshot: %v", err)
+}
+
+// install: the running server takes a snapshot and is handed it back (the real
+// Server.Restore, as Raft does when a server installs a snapshot): every stream
+// is rebuilt from the snapshot's copy.  The publishers' sessions stay.
+func (r *vC16Round) install() {
+	wasPaused := r.cur().IsPaused()
+	r.snapshot()
+	store, metas := r.snapshotStore()
+	if len(metas) == 0 {
+		r.t.Fatalf("INCONCLUSIVE: no snapshot to install")
+	}
+	_, rc, err := store.Open(metas[0].ID)
+	if err != nil {
+		r.t.Fatalf("INCONCLUSIVE: snapshot open: %v", err)
+	}
+	if err := r.srv.Restore(rc); err != nil {
+		r.note = "restore failed: " + err.Error()
+		return
+	}
+	if !wasPaused {
+		r.waitLeader()
+	}
+	r.installs++
+}
+
 // restart: stop the server and start it again on the same data directory
 // (between two waves: nothing is in flight), then reconnect the publishers.
 func (r *vC16Round) restart() {
@@ -566,6 +874,7 @@ func (r *vC16Round) restart() {
 			p.cancel()
 			p.stream = nil
 		}
+		p.closeRaw()
 	}
 	r.env.stop()
 	r.env.start()
@@ -597,6 +906,8 @@ func TestVerifC16Server(t *testing.T) {
 	env := &vC16Env{t: t, cfg: vOneNodeConfig(t, "a")}
 	env.start()
 	defer func() { env.stop() }()
+	VerifGateStopHook = vC16GateHook
+	defer func() { VerifGateStopHook = nil }()
 	emit(vC16Event{T: 0, A: "Open", Msgs: []vC16Msg{}, Log: []vC16Entry{}, Known: map[string]int64{}})
 
 	timedOutRounds := 0
@@ -613,7 +924,10 @@ func TestVerifC16Server(t *testing.T) {
 		r := &vC16Round{t: t, id: b.ID, srv: env.srv, api: env.api, env: env, clk: &clk, pubs: map[string]*vC16Pub{},
 			stream: fmt.Sprintf("c16-%d", b.ID)}
 		r.cfg = vC16Cfg{Batch: int(vInt(b.Cfg, "batch")), BatchMs: int(vIntDef(b.Cfg, "batchMs", 0)),
-			Path: vStrDef(b.Cfg, "path", "async")}
+			Path: vStrDef(b.Cfg, "path", "async"), Snap0: vStrDef(b.Cfg, "snap0", "none")}
+		vC16HoldMu.Lock()
+		vC16Holds = map[string]*vC16Pending{}
+		vC16HoldMu.Unlock()
 		// batching settings of the server for the leader loop of this round's stream
 		srv.config.BatchMaxMessages = r.cfg.Batch
 		srv.config.BatchMaxTime = time.Duration(r.cfg.BatchMs) * time.Millisecond
@@ -625,6 +939,9 @@ func TestVerifC16Server(t *testing.T) {
 			r.srv.api.Publish(ctx, &client.PublishRequest{Stream: r.stream, Value: []byte("old"), // nolint: errcheck
 				AckPolicy: client.AckPolicy_LEADER, ExpectedOffset: -1})
 			cancel()
+			if r.cfg.Snap0 == "pred" {
+				r.snapshot() // the newest snapshot holds the predecessor
+			}
 			for attempt := 1; ; attempt++ {
 				_, err := r.srv.api.DeleteStream(context.Background(), &client.DeleteStreamRequest{Name: r.stream})
 				if err == nil || status.Code(err) == codes.NotFound {
@@ -639,13 +956,19 @@ func TestVerifC16Server(t *testing.T) {
 			for r.srv.metadata.GetStream(r.stream) != nil && time.Now().Before(dl) {
 				time.Sleep(time.Millisecond)
 			}
+			if r.cfg.Snap0 == "gap" {
+				r.snapshot() // taken between the deletion and the creation: holds no stream of that name
+			}
 		}
 		r.createStream(vBool(b.Cfg, "occ"))
+		if r.cfg.Snap0 == "cur" {
+			r.snapshot() // the newest snapshot holds the stream of the round
+		}
 		// observed, not assumed
 		r.cfg.Occ = r.part.log.IsConcurrencyControlEnabled()
 
 		for _, x := range b.Cfg["pubs"].([]interface{}) {
-			p := &vC16Pub{name: x.(string), run: r}
+			p := &vC16Pub{name: x.(string), run: r, pending: map[string]*vC16Pending{}}
 			r.pubs[p.name] = p
 			if r.cfg.Path == "async" {
 				if err := p.openAsync(); err != nil {
@@ -672,6 +995,9 @@ func TestVerifC16Server(t *testing.T) {
 			}
 		}
 		entries, rerr := r.readLog()
+		eocc := r.cur().log.IsConcurrencyControlEnabled()
+		snapHolds := r.snapHolds()
+		holds := 0
 		all := []*vC16Msg{}
 		known := map[string]int64{}
 		for _, p := range r.pubs {
@@ -686,6 +1012,16 @@ func TestVerifC16Server(t *testing.T) {
 		msgs := make([]vC16Msg, len(all))
 		for i, m := range all {
 			msgs[i] = *m
+			msgs[i].pd = nil
+			if m.pd != nil {
+				switch atomic.LoadInt32(&m.pd.held) {
+				case 1:
+					msgs[i].Hold = "counted after the answer"
+					holds++
+				case 2:
+					msgs[i].Hold = "no answer while parked"
+				}
+			}
 			ids[fmt.Sprintf("%d|%s|%d", r.id, m.P, m.Seq)] = i + 1
 			if m.AckT >= vC16Inf && !(m.Pol == "none" && !r.cfg.Occ) {
 				msgs[i].Res = "timeout"
@@ -702,7 +1038,8 @@ func TestVerifC16Server(t *testing.T) {
 			logOut[i] = vC16Entry{Off: e.off, ID: ids[e.val]} // 0 = not a message of this round
 		}
 		ev := vC16Event{T: b.ID, A: "Round", Cfg: &r.cfg, Msgs: msgs, Log: logOut,
-			Clk: atomic.LoadInt64(r.clk) + 1, Known: known, Timeouts: unanswered, NoAnswer: noanswer, Paused: endedPaused, Pauses: r.pauses, Restarts: r.restarts, Recreate: vBool(b.Cfg, "recreate")}
+			Clk: atomic.LoadInt64(r.clk) + 1, Known: known, Timeouts: unanswered, NoAnswer: noanswer, Paused: endedPaused, Pauses: r.pauses, Restarts: r.restarts, Recreate: vBool(b.Cfg, "recreate"),
+			Eocc: eocc, Snap: snapHolds, Snaps: r.snaps, Installs: r.installs, Holds: holds}
 		if rerr != nil {
 			ev.A, ev.Note = "Unreadable", "reading the final log: "+rerr.Error()
 		} else if r.note != "" {
@@ -718,6 +1055,7 @@ func TestVerifC16Server(t *testing.T) {
 				p.stream.CloseSend()
 				p.cancel()
 			}
+			p.closeRaw()
 		}
 		if _, err := r.srv.api.DeleteStream(context.Background(), &client.DeleteStreamRequest{Name: r.stream}); err != nil {
 			t.Logf("delete stream: %v", err)
